@@ -1480,4 +1480,50 @@ theorem spec_getD_assigned (iw : List Nat) : ∀ (data : List Int) (acc : Int) (
             · simp [hc]
           · simp [hj]
 
+/-! ### scans: the memoised metadata frame count (round H) -/
+
+theorem numFrames_idem (mf : Nat) (iw : List Nat) (P L : Nat) :
+    numFrames (numFrames mf iw P L) iw P L = numFrames mf iw P L := by
+  unfold numFrames
+  by_cases h : mf = 0
+  · subst h; simp
+  · simp [h]
+
+theorem queryNumFrames_eq (axes : Axes) (iw : List Nat) (mf : Nat) :
+    queryNumFrames axes iw mf = (numFrames mf iw (pixelsPerLine axes) (linesPerFrame axes),
+      numFrames mf iw (pixelsPerLine axes) (linesPerFrame axes)) := by
+  unfold queryNumFrames numFrames
+  split <;> rfl
+
+theorem queryScanShape_eq (axes : Axes) (iw : List Nat) (mf : Nat) :
+    queryScanShape axes iw mf = (numFrames mf iw (pixelsPerLine axes) (linesPerFrame axes), scanShape axes mf iw) := by
+  unfold queryScanShape scanShape
+  rw [queryNumFrames_eq]
+
+/-- the metadata value changes only from 0 to the reconstructed count: what `num_frames` returns stays the same -/
+theorem scanQuery_numFrames (axes : Axes) (iw : List Nat) (ss : Streams) (st : ScanState) (q : Nat) :
+    numFrames (scanQuery axes iw ss st q).1.mf iw (pixelsPerLine axes) (linesPerFrame axes)
+      = numFrames st.mf iw (pixelsPerLine axes) (linesPerFrame axes) := by
+  unfold scanQuery
+  split
+  · simp only [queryScanShape_eq, numFrames_idem]
+  · split
+    · simp only [queryNumFrames_eq, numFrames_idem]
+    · rfl
+
+theorem scanStateAfter_numFrames (axes : Axes) (iw : List Nat) (ss : Streams) (qs : List Nat) (st : ScanState) :
+    numFrames (scanStateAfter axes iw ss st qs).mf iw (pixelsPerLine axes) (linesPerFrame axes)
+      = numFrames st.mf iw (pixelsPerLine axes) (linesPerFrame axes) := by
+  induction qs generalizing st with
+  | nil => rfl
+  | cons q qs ih =>
+    simp only [scanStateAfter]
+    rw [ih, scanQuery_numFrames]
+
+theorem scanShape_congr (axes : Axes) (iw : List Nat) (a b : Nat)
+    (h : numFrames a iw (pixelsPerLine axes) (linesPerFrame axes) = numFrames b iw (pixelsPerLine axes) (linesPerFrame axes)) :
+    scanShape axes a iw = scanShape axes b iw := by
+  unfold scanShape
+  simp only [h]
+
 end Verif.C02
